@@ -11,14 +11,14 @@ Theorem C20_generated_follows_rule :
   forall (has_conv prefer : bool) (t : tkind),
     t <> TLazyNotFound ->
     gen_field has_conv prefer t = doc_field has_conv prefer (hook_exists_of t).
-Proof. intros [|] [|] [| | |] H; try reflexivity; contradiction. Qed.
+Proof. intros [|] [|] [| | | |] H; try reflexivity; contradiction. Qed.
 Print Assumptions C20_generated_follows_rule.
 
 (* the interpretive BaseConverter follows it for every kind of type, lazily failing hooks included *)
 Theorem C20_interpretive_follows_rule :
   forall (has_conv prefer : bool) (t : tkind),
     interp_field has_conv prefer t = doc_field has_conv prefer (hook_exists_of t).
-Proof. intros [|] [|] [| | |]; reflexivity. Qed.
+Proof. intros [|] [|] [| | | |]; reflexivity. Qed.
 Print Assumptions C20_interpretive_follows_rule.
 
 (* hence the two converter classes agree, except on the lazily failing hooks *)
@@ -34,7 +34,7 @@ Print Assumptions C20_agree_partial.
 Theorem C20_no_converter_unaffected :
   forall (prefer : bool) (t : tkind),
     gen_field false prefer t = gen_field false false t /\ interp_field false prefer t = interp_field false false t.
-Proof. intros [|] [| | |]; split; reflexivity. Qed.
+Proof. intros [|] [| | | |]; split; reflexivity. Qed.
 Print Assumptions C20_no_converter_unaffected.
 
 (* the full statement ("Converter and BaseConverter agree") is false of the code (finding F15):
